@@ -217,7 +217,7 @@ OnExiting(s) ==
 \* swallowed), the state-event callbacks are dropped, _closed = True; the user's on_close override may raise
 CloseOp(s) ==
   IF s.closed THEN Ok(s, None)
-  ELSE LET c  == Hook(Note([s EXCEPT !.subs = FALSE], <<"cleanup">>), "cleanup")
+  ELSE LET c  == Hook(Note([s EXCEPT !.subs = {}], <<"cleanup">>), "cleanup")
            s1 == [c.s EXCEPT !.closed = TRUE, !.cleaned = @ + 1]
        IN Hook(s1, "on_close")
 
@@ -590,7 +590,7 @@ FreshS(pi, pl) ==
    closed |-> FALSE, cleaned |-> 0, outputs |-> <<>>,
    awt |-> [i \in 1..Len(Progs[pi].awt) |-> [key |-> Progs[pi].awt[i], st |-> "pending", val |-> None, reg |-> FALSE, made |-> FALSE]],
    awaiting |-> {}, watched |-> {}, ctx |-> <<>>,
-   comm |-> WithComm, subs |-> FALSE, rpcs |-> <<>>,
+   comm |-> WithComm, subs |-> {}, rpcs |-> <<>>,
    task |-> [pc |-> "top", k |-> 0, fn |-> 0, wfn |-> 0, woken |-> FALSE, err |-> None],
    sched |-> <<>>, occ |-> [h \in PlanHooks |-> 0],
    log |-> <<>>,
@@ -603,10 +603,20 @@ FreshS(pi, pl) ==
 \* of the constructor: no process exists ("ctor-raise", born stays FALSE and nothing is ever enabled).
 \* init(): subscribe to the communicator (RPC, broadcast), try_killing done-callback on the future.
 Created == NewState("CREATED", 1, <<>>, <<>>, None, FALSE)
+\* init(): the two subscriptions are independent: a kiwipy.TimeoutError of one is tolerated (logged) and leaves the other alone
+\*         (hooks "sub_rpc" / "sub_bc": what the communicator does when asked to subscribe); anything else propagates
+Subscribe(s) ==
+  IF ~s.comm THEN Ok(s, None)
+  ELSE LET a  == Hook(s, "sub_rpc")
+           s1 == IF a.exc = NoExc THEN [a.s EXCEPT !.subs = @ \cup {"rpc"}] ELSE a.s
+       IN IF a.exc \notin {NoExc, "TimeoutError"} THEN a
+          ELSE LET b  == Hook(s1, "sub_bc")
+                   s2 == IF b.exc = NoExc THEN [b.s EXCEPT !.subs = @ \cup {"bcast"}] ELSE b.s
+               IN IF b.exc \notin {NoExc, "TimeoutError"} THEN b ELSE Ok(s2, None)
 Construct(s) ==
-  LET r == TransitionTo(s, Created) IN
+  LET r == Then(TransitionTo(s, Created), Subscribe) IN
   IF r.exc # NoExc THEN Note(r.s, <<"ctor-raise", r.exc>>)
-  ELSE [r.s EXCEPT !.born = TRUE, !.subs = s.comm]
+  ELSE [r.s EXCEPT !.born = TRUE]
 InitS(pi, pl) == Construct(FreshS(pi, pl))
 
 \* The running instance is abandoned and the bundle loaded in a fresh event loop (recreate_from + init()):
@@ -614,7 +624,7 @@ InitS(pi, pl) == Construct(FreshS(pi, pl))
 \* Events of the abandoned instance after the checkpoint do not count (log cut at the checkpoint).
 Restore(s) ==
   LET b == s.snap IN
-  [FreshS(s.pi, s.pl) EXCEPT !.born = TRUE, !.subs = s.comm, !.st = b.st, !.cur = b.cur, !.inState = b.inState, !.pausedF = b.pausedF, !.status = b.status,
+  [FreshS(s.pi, s.pl) EXCEPT !.born = TRUE, !.subs = IF s.comm THEN {"rpc", "bcast"} ELSE {}, !.st = b.st, !.cur = b.cur, !.inState = b.inState, !.pausedF = b.pausedF, !.status = b.status,
                             !.preStatus = b.preStatus, !.fut = b.fut, !.outputs = b.outputs,
                             !.log = Append(SubSeq(s.log, 1, b.nlog), <<"restored">>),
                             !.occ = s.occ, !.snap = b, !.restores = s.restores + 1, !.mon.expect = b.expect]
@@ -710,7 +720,7 @@ EnvComplete(i, oc) == Offered("complete") /\ i \in 1..Len(S.awt) /\ S.awt[i].mad
                       /\ Env(StepComplete(S, ready, i, oc))
 \* an RPC message (intent, text) or a broadcast (subject = intent) delivered by the communicator
 Deliver(s, rdy, kind, intent, text) ==
-  IF ~s.subs THEN [s |-> Note(s, <<kind, intent, "unroutable">>), rdy |-> rdy]       \* a terminated process no longer receives messages
+  IF kind \notin s.subs THEN [s |-> Note(s, <<kind, intent, "unroutable">>), rdy |-> rdy]   \* not (or no longer: terminated) subscribed
   ELSE IF intent = "status" /\ kind = "rpc"
        THEN [s |-> Note(s, <<"rpc", "status", s.st, s.pausedF # "none">>), rdy |-> rdy]   \* get_status_info: immediate reply
   ELSE IF intent \notin {"pause", "play", "kill"}
